@@ -40,21 +40,38 @@ theorem gcpointOK_MapOK (f : Fn) (g : GcPoint) (h : gcpointOK f g = true) : MapO
     simp only [interiorOK, slotOK, Bool.and_eq_true, decide_eq_true_eq] at this
     exact ⟨this.1.1.1, this.1.1.2, this.1.2, this.2⟩
 
+/-- "every such address resolves to exactly one function" for the addresses the runtime actually looks up: the return
+address of every call of a compiled function after which the frame may be walked by a collection, or whose handler
+(trap, stack overflow) names the failing function, lies STRICTLY inside that function, so the code map returns that
+function and not its neighbour (a call that ends a function which fills its aligned slot exactly would return to the
+first byte of the next function). -/
+theorem return_address_inside (a : Artifact) (h : wfArtifact a = true) (f : Fn) (hf : f ∈ a.fns)
+    (hk : f.kind = .optimized) (c : Call) (hc : c ∈ f.calls) (hl : c.cls.lookedUp = true) :
+    c.ret < f.stop - f.start ∧ codeMapGet a (f.start + c.ret) = some f := by
+  have h' := h
+  simp only [wfArtifact, Bool.and_eq_true, List.all_eq_true] at h'
+  have hfn := h'.2 f hf
+  simp only [fnOK, Bool.and_eq_true, List.all_eq_true] at hfn
+  obtain ⟨⟨⟨⟨⟨⟨_, _⟩, _⟩, hcalls⟩, _⟩, _⟩, _⟩ := hfn
+  have hcall := (by simpa only [callOK, Bool.and_eq_true] using hcalls c hc : _ ∧ _).1
+  simp only [hk, hl, decide_true, Bool.and_self, and_self, if_true, ite_true, decide_eq_true_eq] at hcall
+  exact ⟨hcall, (code_lookup_unique a h f hf (f.start + c.ret) (by omega) (by omega)).1⟩
+
 /-- "each return address at which a managed frame can be on the stack while a collection runs -- after
 every call to managed code, to a runtime entry, to the safepoint and allocation slow paths -- has a stack
 map, and that map names only reference-sized slots inside that frame": for every such call of every
 compiled function the frame walk does not panic and visits a well-formed map. -/
 theorem suspended_frame_has_map (a : Artifact) (h : wfArtifact a = true) (f : Fn) (hf : f ∈ a.fns)
-    (hk : f.kind = .optimized) (c : Call) (hc : c ∈ f.calls) (hn : c.cls.needsMap = true)
-    (hin : c.ret < f.stop - f.start) :
+    (hk : f.kind = .optimized) (c : Call) (hc : c ∈ f.calls) (hn : c.cls.needsMap = true) :
     ∃ g, frameWalk a (f.start + c.ret) = .roots g ∧ g.pc = c.ret ∧ MapOK f (extraAt f c.ret) g := by
+  have hin : c.ret < f.stop - f.start := (return_address_inside a h f hf hk c hc (by simp [CallClass.lookedUp, hn])).1
   have hlook := (code_lookup_unique a h f hf (f.start + c.ret) (by omega) (by omega)).1
   simp only [wfArtifact, Bool.and_eq_true, List.all_eq_true] at h
   have hfn := h.2 f hf
   simp only [fnOK, Bool.and_eq_true, List.all_eq_true] at hfn
   obtain ⟨⟨⟨⟨⟨⟨_, _⟩, hg⟩, hcalls⟩, _⟩, _⟩, _⟩ := hfn
-  have hcall := hcalls c hc
-  simp only [callOK, hk, hn, decide_true, Bool.and_self, if_true] at hcall
+  have hcall := (by simpa only [callOK, Bool.and_eq_true] using hcalls c hc : _ ∧ _).2
+  simp only [hk, hn, decide_true, Bool.and_self, and_self, if_true, ite_true] at hcall
   obtain ⟨g, hgq⟩ := Option.isSome_iff_exists.mp hcall
   obtain ⟨gmem, gpc⟩ := find_some_mem_pc _ _ _ hgq
   refine ⟨g, ?_, gpc, ?_⟩
@@ -123,5 +140,16 @@ example : wfArtifact ⟨[exFn, exTramp], false⟩ = true := by decide +kernel
 example : wfArtifact ⟨[{ exFn with gcps := [⟨40, [-8, -24], []⟩] }, exTramp], false⟩ = false := by decide +kernel
 example : wfArtifact ⟨[{ exFn with gcps := [⟨40, [-8, -48], []⟩, ⟨80, [-8], []⟩] }, exTramp], false⟩ = false := by decide +kernel
 example : wfArtifact ⟨[exFn, { exTramp with start := 90 }], false⟩ = false := by decide +kernel
+/-- the trap call as the very last instruction of a function that fills its slot exactly (return offset 96 = size):
+rejected — the address would resolve to the trampoline that follows -/
+def exFnLast : Fn :=
+  { exFn with
+    calls := [⟨40, .managed, 0⟩, ⟨80, .alloc, 16⟩, ⟨96, .trap, 0⟩],
+    locs := [⟨40, 0, 3, 5⟩, ⟨80, 0, 4, 9⟩, ⟨96, 0, 4, 9⟩] }
+example : wfArtifact ⟨[exFnLast, exTramp], false⟩ = false := by decide +kernel
+example : (codeMapGet ⟨[exFn, exTramp], false⟩ (0 + 96)).map (·.kind) = some .runtimeEntry := by decide +kernel
+/-- non-vacuity of `return_address_inside`: the trap call of the example function -/
+example : (⟨90, .trap, 0⟩ : Call).ret < exFn.stop - exFn.start ∧ codeMapGet ⟨[exFn, exTramp], false⟩ (exFn.start + 90) = some exFn :=
+  return_address_inside ⟨[exFn, exTramp], false⟩ (by decide +kernel) exFn (by simp) rfl ⟨90, .trap, 0⟩ (by simp [exFn]) rfl
 
 end Dora.Artifact.C10
